@@ -1,0 +1,13 @@
+//go:build verif
+
+package raftlog
+
+// Verification hooks for property C17 (build tag verif only; no behaviour): the constants of the entry-file
+// layout, so that the /verif harness and Coq model always use the values this tree compiles with.
+const (
+	VerifMaxNumEntries  = maxNumEntries
+	VerifLogFileOffset  = logFileOffset
+	VerifMaxLogFileSize = maxLogFileSize
+	VerifEntrySize      = entrySize
+	VerifUnit32Size     = unit32Size
+)
